@@ -30,6 +30,7 @@ var tLock = map[string]string{
 	"circuitbreaker.CircuitBreaker.nextAttempt":        "circuitbreaker.CircuitBreaker.mutex",
 	"ratelimiter.bucket.tokens":                        "ratelimiter.bucket.mutex",
 	"ratelimiter.bucket.lastRefill":                    "ratelimiter.bucket.mutex",
+	"ratelimiter.bucket.evicted":                       "ratelimiter.bucket.mutex",
 	"metrics.Metrics.BackendMetrics":                   "metrics.Metrics.mutex",
 	"metrics.Metrics.CircuitBreakerMetrics":            "metrics.Metrics.mutex",
 	"metrics.Metrics.Uptime":                           "metrics.Metrics.mutex",
